@@ -1,19 +1,9 @@
 (* Cli_Proofs.v -- C15 (-rm), C16 (dispatch), C17, C18 for the model of main.run. *)
-From Moq Require Import Strs Cli SkeletonPins.
-From Moq.gen Require Import Skeletons.
+From Moq Require Import Strs Cli.
 From Coq Require Import Lia.
 Local Open Scope list_scope.
 
-(* ---------- the pins: the model was written from exactly this source ---------- *)
-Theorem pin_main_run : src_main_run = pinned_main_run. Proof. reflexivity. Qed.
-Theorem pin_main_main : src_main_main = pinned_main_main. Proof. reflexivity. Qed.
-Theorem pin_mocker_mock : src_mocker_mock = pinned_mocker_mock. Proof. reflexivity. Qed.
-Theorem pin_mocker_format : src_mocker_format = pinned_mocker_format. Proof. reflexivity. Qed.
-Theorem pin_mock_pkg_name : src_mock_pkg_name = pinned_mock_pkg_name. Proof. reflexivity. Qed.
-Theorem pin_parse_interface_name : src_parse_interface_name = pinned_parse_interface_name. Proof. reflexivity. Qed.
-Theorem pin_moq_new : src_moq_new = pinned_moq_new. Proof. reflexivity. Qed.
-Theorem pin_gofmt : src_gofmt = pinned_gofmt. Proof. reflexivity. Qed.
-Theorem pin_goimports : src_goimports = pinned_goimports. Proof. reflexivity. Qed.
+(* the pins tying this model to the source text are in Pin_*.v, one file each *)
 
 (* ---------- paths ---------- *)
 Lemma path_eqb_eq a b : path_eqb a b = true <-> a = b.
